@@ -169,7 +169,7 @@ fn rand_hex(rng: &mut Rng, len: usize, upper: bool) -> String {
 }
 
 fn rand_word(rng: &mut Rng, len: usize) -> String {
-    let alpha = b"abcdefghijklmnopqrstuvwxyzABCDEFGHIJKLMNOPQRSTUVWXYZ0123456789 _-.,%/\\'\"";
+    let alpha = b"abcdefghijklmnopqrstuvwxyzABCDEFGHIJKLMNOPQRSTUVWXYZ0123456789 _-.,%/'\"";
     (0..len).map(|_| alpha[rng.below(alpha.len())] as char).collect()
 }
 
